@@ -49,6 +49,13 @@ Theorem text_roundtrip_origin : forall (n : name) (origin : option name),
 Proof. exact NameText.text_roundtrip_origin. Qed.
 Print Assumptions text_roundtrip_origin.
 
+(* omit_final_dot=True output, read back against the root origin *)
+Theorem text_roundtrip_omit : forall n : name,
+  Valid n -> AllBytes n -> is_absolute n = true ->
+  from_text (to_text_omit n) (Some root) = Ok n.
+Proof. exact NameText.text_roundtrip_omit. Qed.
+Print Assumptions text_roundtrip_omit.
+
 (* ---- the zone-file path: Tokenizer.get() / get_name on the printed name ---- *)
 (* the printed form of any name over all 256 octet values is returned by the tokenizer as ONE
    identifier token, whatever follows it (end of input or any delimiter: blank, newline, ';',
@@ -78,6 +85,24 @@ Theorem wire_roundtrip : forall (n : name) (pre post : list Z),
   from_wire (pre ++ wire_labels false n ++ post) (length pre) = Ok (n, length (wire_labels false n)).
 Proof. exact NameWire.wire_roundtrip. Qed.
 Print Assumptions wire_roundtrip.
+
+(* with an origin (relative names are made absolute): never longer than 255 octets - NameTooLong
+   instead - and the result decodes to exactly the labels of the name followed by the origin's *)
+Theorem to_wire_spec : forall (n : name) (origin : option name) (canon : bool) (w : list Z),
+  Valid n -> (forall o, origin = Some o -> Valid o) ->
+  to_wire n origin canon = Ok w ->
+  exists labels, full_name n origin = Ok labels /\ w = wire_labels canon labels /\
+                 Z.of_nat (length w) <= 255.
+Proof. exact NameCompress.to_wire_spec. Qed.
+Print Assumptions to_wire_spec.
+
+Theorem to_wire_roundtrip : forall (n : name) (origin : option name) (w pre post : list Z),
+  Valid n -> (forall o, origin = Some o -> Valid o) ->
+  to_wire n origin false = Ok w ->
+  exists labels, full_name n origin = Ok labels /\
+    from_wire (pre ++ w ++ post) (length pre) = Ok (labels, length w).
+Proof. exact NameCompress.to_wire_roundtrip. Qed.
+Print Assumptions to_wire_roundtrip.
 
 (* ---- decoding terminates on every input; pointers only go strictly backwards ---- *)
 (* the model's loop runs on fuel S ((S start) * (S (length wire))); the fuel marker
@@ -164,6 +189,21 @@ Theorem compress_exact : forall (n : name) (origin : option name)
     from_wire file' (length file) = Ok (labels, length em).
 Proof. exact NameCompress.compress_exact. Qed.
 Print Assumptions compress_exact.
+
+(* a whole sequence of names written through one table (what a message renderer does): the
+   table invariant composes and every name is decodable, in the FINAL message, at the offset
+   where it was written *)
+Theorem write_names_sound : forall (origin : option name) (ns : list name)
+    (file : list Z) (t : ctable) (file' : list Z) (t' : ctable),
+  TableSound file t -> Forall Valid ns ->
+  write_names ns origin file t = Ok (file', t') ->
+  exists em offs,
+    file' = file ++ em /\ TableSound file' t' /\
+    Forall2 (fun n off =>
+               exists labels n' c, full_name n origin = Ok labels /\
+                 from_wire file' off = Ok (n', c) /\ ci_equal n' labels) ns offs.
+Proof. exact NameCompress.write_names_sound. Qed.
+Print Assumptions write_names_sound.
 
 (* the relation Dec used by TableExact is exactly the decoder *)
 Theorem decode_relation_sound : forall msg off ls h,
